@@ -57,6 +57,11 @@ var stringClasses = []class{
 	{"empty", []string{""}, "mkv", true},
 	{"delimiter-word", []string{"delimiter", "delimitermsgdelimiter", `delimiter"x"delimiter`}, "mkv", false},
 	{"percent", []string{"%s %d %!", "100%", "%v"}, "mkv", false},
+	// strings whose text is also the spelling of a JSON number / boolean / null (a type-changing edit keeps the spelling)
+	{"literal-spelling", []string{"3", "-7", "1.5", "true", "false", "null", "0", "1e3", "12345678901234567890"}, "mkv", true},
+	// a value that spells "<a> delimiter delimiter <name> delimiter <b>": can be re-cut into two members at the separator word
+	// (the names sort right behind the field names the generator uses: data < delta < level, msg < n < product, zdata < zz)
+	{"delimiter-recut", []string{"delimiterdelimiterdeltadelimiter", "delimiterdelimiterzzdelimiter", "delimiterdelimiterndelimiter"}, "mv", false},
 	{"long-1k", []string{strings.Repeat("lorem ipsum ", 100)}, "mv", false},
 }
 
